@@ -63,6 +63,11 @@ def main():
         seed = 0
     ctx = C.Ctx(pid, tier, seed)
     mod = importlib.import_module("props.%s" % pid)
+    changed = C.changed_anchor_files(getattr(mod, "ANCHORS", []))
+    if changed:
+        ctx.boost = int(getattr(mod, "BOOST", 6))
+        ctx.notes.append("anchored source changed since the model was last validated (%s): quick tier deepened x%d"
+                         % (", ".join(changed), ctx.boost))
     rel = getattr(mod, "THEOREM_FILE", "Properties/%s.v" % pid)
     evidence_path = os.path.join(C.VERIF, "evidence", "%s.json" % pid)
     obligations = []
@@ -229,7 +234,7 @@ def main():
     for l in out_lines:
         print(l)
     print("%s %s tier=%s seed=%d theorems=%d/%d evaluations=%d nontrivial=%d wall=%.1fs" % (
-        pid, "OK" if rc_final == 0 else "FAILED", tier, seed, cov["discharged"], len(obligations),
+        pid, "OK" if rc_final == 0 else "FAILED", tier, seed, cov.get("discharged", 0), len(obligations),
         ctx.evaluations, len(ctx.nontrivial_keys), time.time() - ctx.t0))
     sys.exit(rc_final)
 
